@@ -355,14 +355,19 @@ class Path:
         sub = Env({"self": recv}, self.env.heap, self.env.alloc, spec=True)
         self.oblige("%s/%s@L%d:%s.%s" % (self.fc.qualname, label, line, owner, attr), self.ev_spec(cond, sub).t, "guarded-access", line)
 
-    def apply_interference(self, line, why):
-        """thread-modular environment step (DESIGN §5): other processes may have run"""
+    def apply_interference(self, line, why, receiver=None):
+        """thread-modular environment step (DESIGN §5): other processes / threads may have run"""
         itf = self.unit.interference
-        if itf is None or not self.selfname or itf["cls"] not in self.eng.mro(self.concrete) or self.fc.kind == "init":
+        if itf is None or not self.selfname or self.fc.kind == "init":
             return
         if getattr(self.fc, "quiescent", False):
             return          # the contract requires that no other process / thread is active during this call
-        selfv = self.env.locals[self.selfname]
+        if itf["cls"] in self.eng.mro(self.concrete):
+            selfv = self.env.locals[self.selfname]
+        elif receiver is not None and itf["cls"] in self.eng.mro(receiver.s.cls):
+            selfv = receiver
+        else:
+            return
         pre = Env({"self": selfv}, dict(self.env.heap), self.env.alloc, spec=True)
         pre.old = pre
         w = self.ev_spec(itf["when"], pre).t
@@ -890,6 +895,10 @@ class Path:
                 raise Unsupported("code writes a ghost field")
             self.check_guard(ref, d[0], tgt.attr, getattr(tgt, "lineno", 0))
             self.hwrite(ref, tgt.attr, v)
+            for gexpr, glabel in self.unit.write_guarantees.get((d[0], tgt.attr), []):
+                sub = Env({"self": ref}, self.env.heap, self.env.alloc, spec=True, old=self.entry)
+                self.oblige("%s/guarantee@L%d:%s" % (self.fc.qualname, getattr(tgt, "lineno", 0), glabel), self.ev_spec(gexpr, sub).t,
+                            "guarantee", getattr(tgt, "lineno", 0))
             return
         if isinstance(tgt, ast.Subscript) and isinstance(tgt.slice, ast.Slice):
             sl = tgt.slice
@@ -1119,6 +1128,11 @@ class Path:
                 if fc is not None and fc not in out:
                     out.append(fc)
         elif isinstance(f, ast.Name):
+            lv = self.env.locals.get(f.id)
+            if lv is not None and isinstance(lv.s, RefS):
+                fc = self.eng.find_contract(lv.s.cls, "__call__")
+                if fc is not None:
+                    out.append(fc)
             if f.id in self.unit.functions:
                 out.append(self.unit.functions[f.id])
             if f.id in self.unit.env:
@@ -1616,6 +1630,8 @@ class Path:
             if d is not None:
                 if not env.spec:
                     self.check_guard(recv, d[0], n.attr, getattr(n, "lineno", 0))
+                    if (d[0], n.attr) in self.unit.volatile and not getattr(self, "under_binder", 0):
+                        self.apply_interference(getattr(n, "lineno", 0), "before reading " + n.attr, receiver=recv)
                 return self.hread(env, recv, n.attr)
             # property getter with a contract?
             fc = self.eng.find_contract(recv.s.cls, n.attr)
@@ -2029,6 +2045,15 @@ class Path:
             bounds = self.collect_bounds
         finally:
             self.collect_bounds = saved_cb
+        if not env.spec:
+            # a callee that may raise (a `raises` clause with iff=False) inside the element expression: some element may raise
+            for cn in ast.walk(n.elt):
+                if isinstance(cn, ast.Call):
+                    for cfc in self.callees_of(cn):
+                        for exc, when, ens, iff in cfc.raises_l:
+                            if not iff:
+                                if self.decide(fresh("elt_raises_" + exc, BOOL)):
+                                    raise PyExc(exc, getattr(n, "lineno", 0))
         if bounds:
             self.oblige("%s/bounds@L%d:subscripts-in-comprehension-in-range" % (self.fc.qualname, getattr(n, "lineno", 0)),
                         z3.ForAll([j], z3.Implies(z3.And(0 <= j, j < seq_len(S.t), *conds), z3.And(*bounds))), "bounds",
